@@ -31,6 +31,12 @@ pub enum UStep {
     NextTimer,
     /// end of input
     Eof,
+    /// fault: stdout is not read from here on (a full pipe); writers block. It is read again at
+    /// `ResumeStdout`, or as soon as nothing else in the process can run
+    StallStdout,
+    ResumeStdout,
+    /// let the engine run until nothing is runnable, without draining a stalled stdout
+    SettleStalled(u32),
 }
 
 #[derive(Clone, Debug, Serialize, Deserialize, PartialEq)]
@@ -89,6 +95,15 @@ fn session_world(case: UciCase) -> (Option<bool>, usize) {
         world::note(format!("exec returned {}", if r.is_ok() { "ok" } else { "err" }));
         r.is_ok()
     });
+    // one scheduling step; when everything that is left waits for stdout, the reader drains it
+    fn step_q() -> usize {
+        let n = world::step();
+        if n == 0 && world::resume_stdout() {
+            world::note("stdout drained");
+            return 1;
+        }
+        n
+    }
     let mut ended = false;
     for (i, st) in case.script.iter().enumerate() {
         match st {
@@ -102,7 +117,7 @@ fn session_world(case: UciCase) -> (Option<bool>, usize) {
             }
             UStep::Steps(n) => {
                 for _ in 0..*n {
-                    if world::step() == 0 {
+                    if step_q() == 0 {
                         break;
                     }
                 }
@@ -115,7 +130,7 @@ fn session_world(case: UciCase) -> (Option<bool>, usize) {
                     if bestmoves_in_log() > before {
                         break;
                     }
-                    if world::step() == 0 {
+                    if step_q() == 0 {
                         quiescent = true;
                         break;
                     }
@@ -127,12 +142,23 @@ fn session_world(case: UciCase) -> (Option<bool>, usize) {
             UStep::Settle(max) => {
                 let mut quiescent = false;
                 for _ in 0..*max {
-                    if world::step() == 0 {
+                    if step_q() == 0 {
                         quiescent = true;
                         break;
                     }
                 }
                 world::note(if quiescent { "settled" } else { "settle-budget-used" });
+            }
+            UStep::SettleStalled(max) => {
+                for _ in 0..*max {
+                    if world::step() == 0 {
+                        break;
+                    }
+                }
+            }
+            UStep::StallStdout => world::stall_stdout(),
+            UStep::ResumeStdout => {
+                world::resume_stdout();
             }
             UStep::NextTimer => {
                 if let Some(d) = world::next_deadline() {
@@ -151,7 +177,7 @@ fn session_world(case: UciCase) -> (Option<bool>, usize) {
         if exec_finished() {
             break;
         }
-        if world::step() == 0 {
+        if step_q() == 0 {
             // nothing runnable and the loop has not returned: only a timer could help
             match world::next_deadline() {
                 Some(d) if guard < 100_000 => {
@@ -164,12 +190,13 @@ fn session_world(case: UciCase) -> (Option<bool>, usize) {
         }
     }
     let ok = if exec_finished() { Some(h.join().unwrap_or(false)) } else { Some(h.join().unwrap_or(false)) };
+    world::resume_stdout();
     // emulate time passing after the process would have exited: every detached timer
     // thread must observe its deadline and end
     world::note("end-of-session clock jump");
     world::tick(20_000_000_000_000_000);
     for _ in 0..1_000_000 {
-        if world::step() == 0 {
+        if step_q() == 0 {
             break;
         }
     }
@@ -892,6 +919,7 @@ fn session_probes(case: &UciCase, s: &Session, stats: &mut RunStats) {
             UStep::Tick(_) => stats.fault("clock-tick"),
             UStep::NextTimer => stats.fault("advance-to-next-timer"),
             UStep::Eof => stats.fault("eof"),
+            UStep::StallStdout => stats.fault("stdout-stall"),
             _ => {}
         }
     }
@@ -1171,14 +1199,34 @@ pub fn generate(ctx: &Ctx, prop: &str, rng: &mut Rng64, thorough: bool, index: u
                 let p = Pos::from_fen(rng.pick(corpus::NORMAL)).unwrap();
                 s.push(UStep::Line(format!("position fen {}", p.fen())));
                 s.push(UStep::Line(format!("go depth {}", 1 + rng.below(2))));
+                if rng.chance(500) {
+                    // ... with a reader that is late draining the engine's output: the search
+                    // ends by itself while its answer is still stuck in the writer
+                    s.push(UStep::StallStdout);
+                }
                 let k = match rng.below(3) {
                     0 => rng.below(60),
                     1 => rng.below(400),
                     _ => rng.below(2500),
                 };
-                s.push(UStep::Steps(k as u32));
+                if matches!(s.last(), Some(UStep::StallStdout)) && rng.chance(700) {
+                    // (the last command then arrives while the answer is still stuck)
+                    s.push(UStep::SettleStalled(400_000));
+                } else {
+                    s.push(UStep::Steps(k as u32));
+                }
             } else if rng.chance(300) {
                 s.push(UStep::Line("isready".to_string()));
+            }
+            if rng.chance(120) {
+                // stdout stops being read somewhere in the session (and is read again later,
+                // or when the process can do nothing else)
+                let at = rng.below(s.len() as u64 + 1) as usize;
+                s.insert(at, UStep::StallStdout);
+                if rng.chance(500) {
+                    let back = at + 1 + rng.below((s.len() - at) as u64) as usize;
+                    s.insert(back, UStep::ResumeStdout);
+                }
             }
             if rng.chance(500) {
                 s.push(UStep::Line("quit".to_string()));
